@@ -21,7 +21,7 @@ PROPS = ("C03", "C04", "C06", "C08", "C09")
 
 TIERS = {
     # runs, wall cap for submitting new runs (s), determinism re-executions
-    "quick": {"C09": (40, 240, 2), "C03": (40, 240, 2), "C04": (20, 240, 1), "C06": (40, 240, 2), "C08": (40, 240, 2)},
+    "quick": {"C09": (50, 240, 2), "C03": (50, 240, 2), "C04": (24, 240, 1), "C06": (50, 240, 2), "C08": (50, 240, 2)},
     "thorough": {"C09": (900, 2100, 6), "C03": (900, 1800, 6), "C04": (480, 2100, 4), "C06": (900, 1800, 6), "C08": (900, 1800, 6)},
 }
 
